@@ -79,7 +79,7 @@ REL = "@REL"  # host spelling: relative URL (Facebook, allow_relative_urls)
 def _qcombos(items, triples=()):
     out = [""]
     out += list(items)
-    out += ["%s&%s" % (a, b) for a in items for b in items if a != b]
+    out += ["%s&%s" % (a, b) for i, a in enumerate(items) for b in items[i + 1:]]
     out += list(triples)
     return out
 
@@ -91,9 +91,10 @@ SPEC = {
         "voc": FB_ROUTES + ["123456789", "1234567", "some.handle", "a.1234", "12345678x", ""],
         "pruned": ["videos", "photos", "posts", "permalink", "groups", "people", "123456789", "some.handle", "a.1234"],
         "qfull": _qcombos(["v=1", "v", "fbid=1", "set=g.2", "set=a.3", "id=5", "id=", "story_fbid=4", "x=1"],
-                          ["fbid=1&set=gm.4&type=3", "fbid=1&id=5&set=a.3", "story_fbid=4&amp;id=5", "fbid=1&amp;set=g.2", "fbid=1&set=g.2&set=a.3", "u=http%3A%2F%2Fa.com%2F&h=AT0"]),
+                          ["id=5&story_fbid=4", "set=g.2&fbid=1", "fbid=1&set=gm.4&type=3", "fbid=1&id=5&set=a.3", "story_fbid=4&amp;id=5", "fbid=1&amp;set=g.2", "fbid=1&set=g.2&set=a.3", "u=http%3A%2F%2Fa.com%2F&h=AT0"]),
         "q": ["", "v=1", "fbid=1", "fbid=1&set=g.2", "fbid=1&set=a.3", "id=5", "story_fbid=4", "story_fbid=4&id=5", "id=5&story_fbid=4", "x=1"],
-        "qshort": ["", "fbid=1&set=a.3", "story_fbid=4&id=5", "id=5"],
+        "qshort": ["", "story_fbid=4&id=5", "id=5"],
+        "drop3": ["12345678x", "photo", "story.php"],
         "frags": ["", "#x", "#!/some.handle"],
     },
     "youtube": {
@@ -103,9 +104,10 @@ SPEC = {
         "pruned": ["watch", "embed", "shorts", "channel", "user", "c", VID, "about", "@handle"],
         "qfull": _qcombos(["v=" + VID, "v=abc", "v=" + VID + "xyz", "v=", "v", "list=PL1", "next=%2Fwatch%3Fv%3D" + VID, "next=%2Fwatch%3Fv%3Dabc", "feature=share"],
                           ["v=" + VID + "&list=PL1&t=1", "app=desktop&next=%2Fwatch%3Fv%3Dabc&list=PL1", "continue=https%3A%2F%2Fwww.youtube.com%2Fsignin%3Fnext%3D%252Fwatch%253Fv%253Dabc",
-                           "a=1&u=%2Fwatch%3Fv%3D" + VID + "%26feature%3Dshare", "xv=" + VID, "playlist=PL2&v=" + VID]),
+                           "a=1&u=%2Fwatch%3Fv%3D" + VID + "%26feature%3Dshare", "xv=" + VID, "playlist=PL2&v=" + VID, "list=PL1&v=" + VID]),
         "q": ["", "v=" + VID, "v=abc", "v=" + VID + "xyz", "list=PL1", "v=" + VID + "&list=PL1", "next=%2Fwatch%3Fv%3Dabc", "v="],
         "qshort": ["", "v=" + VID, "list=PL1"],
+        "drop3": ["v", "video", VID + "xyz", "feed"],
         "frags": ["", "#x", "#/watch?v=" + VID, "#%2Fwatch%3Fv%3D" + VID, "#/watch?v=abc"],
     },
     "twitter": {
@@ -164,18 +166,42 @@ def render(case):
     return u
 
 
+def uncase(plat, u):
+    """inverse of render for URLs rendered from a structured case (used by replay: witnesses carry the URL only)"""
+    u, h, frag = u.partition("#")
+    u, q, query = u.partition("?")
+    i = u.find("://")
+    start = i + 3 if i != -1 else (2 if u.startswith("//") else 0)
+    j = u.find("/", start)
+    if plat == "facebook" and u.startswith("/") and not u.startswith("//"):
+        host, path = REL, u
+    elif j == -1:
+        host, path = u, ""
+    else:
+        host, path = u[:j], u[j:]
+    segs = path.split("/")[1:] if path else []
+    trail = False
+    if len(segs) >= 1 and segs[-1] == "" and path != "/":
+        segs, trail = segs[:-1], True
+    elif path == "/":
+        segs, trail = [], True
+    return {"platform": plat, "host": host, "segs": segs, "trail": trail, "query": query, "frag": h + frag}
+
+
 def levels(spec, tier):
     """(lengths, vocabulary, hosts, trailing, queries, fragments) blocks, width shrinking with the depth."""
     h, d = spec["hosts"], spec["deep"]
-    out = [((0, 1), spec["voc"], h, (False, True), spec["qfull"], spec["frags"]),
-           ((2,), spec["voc"], h[:max(2, d)], (False, True), spec["q"], spec["frags"][:2]),
-           ((3,), spec["voc"], h[:d], (False, True), spec["qshort"], spec["frags"][:1])]
+    voc, drop = spec["voc"], spec.get("drop3", ())
+    voc3 = [w for w in voc if w not in drop]
     if tier == "thorough":
-        out[1] = ((2,), spec["voc"], h, (False, True), spec["qfull"], spec["frags"])
-        out[2] = ((3,), spec["voc"], h[:max(2, d)], (False, True), spec["q"], spec["frags"][:2])
-        out.append(((4,), spec["pruned"], h[:d], (False, True), spec["qshort"], spec["frags"][:1]))
-        out.append(((5,), spec["pruned"], h[:d], (False,), spec["qshort"][:2], spec["frags"][:1]))
-    return out
+        return [((0, 1, 2), voc, h, (False, True), spec["qfull"], spec["frags"]),
+                ((3,), voc, h[:max(2, d)], (False, True), spec["q"], spec["frags"][:2]),
+                ((4,), spec["pruned"], h[:d], (False, True), spec["qshort"], spec["frags"][:1]),
+                ((5,), spec["pruned"], h[:d], (False,), spec["qshort"][:2], spec["frags"][:1])]
+    return [((0, 1), voc, h, (False, True), spec["qfull"], spec["frags"][:1]),
+            ((0, 1), voc, h, (False, True), spec["q"], spec["frags"][1:]),
+            ((2,), voc, h[:max(2, d)], (False, True), spec["q"], spec["frags"][:1]),
+            ((3,), voc3, h[:d], (False, True), spec["qshort"], spec["frags"][:1])]
 
 
 # ---------------------------------------------------------------------------------------------------------------
@@ -236,7 +262,7 @@ def fields_of(rec):
 
 
 def shape_of(rec):
-    return "+".join(k for k, v in fields_of(rec) if v is not None) or "empty"
+    return "+".join(k + ("=empty" if v == "" else "") for k, v in fields_of(rec) if v is not None) or "empty"
 
 
 def describe(rec):
@@ -260,6 +286,13 @@ class Checker(object):
         self.m = mods
         self.seen_mech = set()
         self.n_norm = 0
+        self.cur_truth = None
+        self.cur_case = None
+
+    def viol(self, mech, wit, detail=None):
+        wit = dict(wit)
+        wit.setdefault("truth", self.cur_truth)
+        self.ctx.viol(mech, wit, detail)
 
     # -- one monitored call ------------------------------------------------------------------------------------
     def call(self, plat, name, fn, u, truth=None, kw=None, convert=False):
@@ -276,13 +309,16 @@ class Checker(object):
             key = crash_key(ctx, name, e)
             kind = "convert-raises-on-platform-url:" if (convert and isinstance(e, TypeError) and truth is True) else "exception:"
             mech = "C19:" + kind + key
-            wit = {"platform": plat, "fn": name, "url": u, "kw": kw or {}, "truth": truth}
+            wit = {"platform": plat, "fn": name, "url": u, "kw": kw or {}}
+            if not isinstance(u, str):
+                wit["url"] = u.geturl()
+                wit["split_result"] = True
             if mech not in self.seen_mech:
                 self.seen_mech.add(mech)
                 small = self.shrink_url(u, lambda s: self.same_crash(name, fn, s, kw, key))
                 if small != u:
-                    ctx.viol(mech, dict(wit, url=small), {"exception": type(e).__name__, "shrunk_from": u})
-            ctx.viol(mech, wit, {"exception": type(e).__name__, "message": str(e)[:120]})
+                    self.viol(mech, dict(wit, url=small), {"exception": type(e).__name__, "shrunk_from": u})
+            self.viol(mech, wit, {"exception": type(e).__name__, "message": str(e)[:120]})
             return False, None
 
     def same_crash(self, name, fn, s, kw, key):
@@ -341,11 +377,11 @@ class Checker(object):
     # -- result shape ------------------------------------------------------------------------------------------
     def expect_bool(self, plat, name, u, ok, v, kw=None):
         if ok and type(v) is not bool:
-            self.ctx.viol("C19:result-type:%s:not-bool" % name, {"platform": plat, "fn": name, "url": u, "kw": kw or {}}, {"got": repr(v)})
+            self.viol("C19:result-type:%s:not-bool" % name, {"platform": plat, "fn": name, "url": u, "kw": kw or {}}, {"got": repr(v)})
 
     def expect_optstr(self, plat, name, u, ok, v):
         if ok and v is not None and not isinstance(v, str):
-            self.ctx.viol("C19:result-type:%s:not-str-or-None" % name, {"platform": plat, "fn": name, "url": u, "kw": {}}, {"got": repr(v)})
+            self.viol("C19:result-type:%s:not-str-or-None" % name, {"platform": plat, "fn": name, "url": u, "kw": {}}, {"got": repr(v)})
 
     def expect_record(self, plat, name, u, ok, v, kw=None):
         """None or a documented record with str|None fields -> the record (or None)."""
@@ -354,11 +390,11 @@ class Checker(object):
         ctx = self.ctx
         wit = {"platform": plat, "fn": name, "url": u, "kw": kw or {}}
         if not isinstance(v, self.m.types[plat]):
-            ctx.viol("C19:result-type:%s:undocumented-type" % name, wit, {"got": repr(v)})
+            self.viol("C19:result-type:%s:undocumented-type" % name, wit, {"got": repr(v)})
             return None
         for k, x in fields_of(v):
             if x is not None and not isinstance(x, str):
-                ctx.viol("C19:result-type:%s:%s.%s-not-str" % (name, type(v).__name__, k), wit, {"got": repr(x)})
+                self.viol("C19:result-type:%s:%s.%s-not-str" % (name, type(v).__name__, k), wit, {"got": repr(x)})
                 return None
         ctx.count("rec:" + type(v).__name__)
         return v
@@ -371,13 +407,543 @@ class Checker(object):
         try:
             good = validator(val)
         except Exception as e:
-            ctx.viol("C19:exception:" + crash_key(ctx, vname, e), {"platform": plat, "fn": vname, "url": val, "kw": {}, "validator_arg": True})
+            self.viol("C19:exception:" + crash_key(ctx, vname, e), {"platform": plat, "fn": vname, "url": val, "kw": {}, "validator_arg": True})
             return
         if good is not True:
-            ctx.viol("C19:validator:%s:%s.%s:route=%s" % (plat, type(rec).__name__, field, route),
+            self.viol("C19:validator:%s:%s.%s:route=%s" % (plat, type(rec).__name__, field, route),
                      {"platform": plat, "fn": "parse", "url": u, "kw": kw or {}}, {"record": describe(rec), "validator": vname, "value": val})
 
 
 def ctx_site_line(e):
     tb = traceback.extract_tb(e.__traceback__)
     return (tb[-1].line or "") if tb else ""
+
+
+# ---------------------------------------------------------------------------------------------------------------
+# per-platform post-conditions
+# ---------------------------------------------------------------------------------------------------------------
+SAFE = set("abcdefghijklmnopqrstuvwxyzABCDEFGHIJKLMNOPQRSTUVWXYZ0123456789._~@!$'()*,;:-")
+
+
+def safe_values(rec):
+    return all(v is None or all(c in SAFE for c in v) for _, v in fields_of(rec))
+
+
+def route_counts(ctx, plat, case, got_record):
+    if not case:
+        return
+    segs = case["segs"]
+    for w in ROUTES[plat]:
+        if w in segs:
+            if got_record:
+                ctx.count("%s:%s:complete" % (plat, w))
+            if segs[-1] == w and not case.get("query"):
+                ctx.count("%s:%s:truncated" % (plat, w))
+
+
+def yt_route(u, case, rec):
+    low = u.lower()
+    rid = (rec.id or "").lower()
+    if rid and ("v%3d" + rid in low or "v%253d" + rid in low) and "next" in low:
+        return "continuation"
+    if "youtu.be" in low.split("?")[0].split("#")[0]:
+        return "youtu.be"
+    if "#" in u and rid and rid in low.partition("#")[2]:
+        return "fragment"
+    if case and case["segs"] and case["segs"][0] in YT_ROUTES:
+        return case["segs"][0]
+    for w in YT_ROUTES:
+        if "/" + w + "/" in low or "/" + w + "?" in low:
+            return w
+    return "other"
+
+
+class PlatformChecks(Checker):
+    def check(self, plat, u, truth, case=None):
+        self.cur_truth, self.cur_case = truth, case
+        getattr(self, "check_" + plat)(u, truth, case)
+
+    def maybe_normalize_url(self, plat, u, truth):
+        self.n_norm += 1
+        if self.n_norm % 8:
+            return
+        ctx = self.ctx
+        ctx.ev()
+        try:
+            self.m.normalize_url(u, platform_aware=True)
+        except Exception as e:
+            if in_platform_module(e):
+                self.viol("C19:exception:" + crash_key(ctx, "normalize_url", e), {"platform": plat, "fn": "normalize_url", "url": u, "kw": {"platform_aware": True}})
+            else:
+                ctx.count("normalize_url-raises-outside-platform-modules-not-judged")
+            return
+        if truth is True:
+            ctx.count("normalize_url:platform-branch")
+
+    def split_result_branch(self, plat, name, fn, u):
+        try:
+            sp = self.m.safe_urlsplit(u)
+            host = sp.hostname
+        except Exception:
+            self.ctx.count("splitresult-unparseable-not-judged")
+            return
+        if not host:
+            self.ctx.count("splitresult-hostless-not-judged")
+            return
+        ok, v = self.call(plat, name + "[SplitResult]", fn, sp)
+        if ok and type(v) is not bool:
+            self.viol("C19:result-type:%s[SplitResult]:not-bool" % name, {"platform": plat, "fn": name, "url": u, "kw": {}, "split_result": True}, {"got": repr(v)})
+
+    def roundtrip_url_property(self, plat, parse_name, parse, rec, u, kws):
+        """parse(record.url) == record for every configuration in kws."""
+        ctx = self.ctx
+        if not safe_values(rec):
+            ctx.count("roundtrip-unsafe-value-not-judged")
+            return
+        tname, shape = type(rec).__name__, shape_of(rec)
+        wit = {"platform": plat, "fn": parse_name, "url": u, "kw": {}}
+        ctx.ev()
+        try:
+            cu = rec.url
+        except Exception as e:
+            self.viol("C19:exception:" + crash_key(ctx, tname + ".url", e), wit, {"record": describe(rec)})
+            return
+        ctx.count("roundtrip-checked:" + plat)
+        if not isinstance(cu, str):
+            self.viol("C19:roundtrip:%s:%s:%s:url-not-a-string" % (plat, tname, shape), wit, {"record": describe(rec), "canonical": repr(cu)})
+            return
+        for kw in kws:
+            ok, back = self.call(plat, parse_name, parse, cu, True, kw)
+            if ok and not (back == rec):
+                self.viol("C19:roundtrip:%s:%s:%s:%s" % (plat, tname, shape, diff_kind(rec, back)), wit,
+                         {"record": describe(rec), "canonical": cu, "reparsed": describe(back), "reparse_kw": kw})
+                return
+
+    # -- facebook ----------------------------------------------------------------------------------------------
+    def check_facebook(self, u, truth, case):
+        fb, ctx, P = self.m.fb, self.ctx, "facebook"
+        ok, v = self.call(P, "is_facebook_url", fb.is_facebook_url, u)
+        self.expect_bool(P, "is_facebook_url", u, ok, v)
+        for name in ("is_facebook_post_url", "is_facebook_link"):
+            ok, v = self.call(P, name, getattr(fb, name), u)
+            self.expect_bool(P, name, u, ok, v)
+        ok, v = self.call(P, "extract_url_from_facebook_link", fb.extract_url_from_facebook_link, u)
+        self.expect_optstr(P, "extract_url_from_facebook_link", u, ok, v)
+        ctruth = truth
+        if truth is True and (case is None or "facebook" not in case["host"]):
+            ctruth = None
+            ctx.count("convert-fb.me-or-relative-not-judged")
+        ok, v = self.call(P, "convert_facebook_url_to_mobile", fb.convert_facebook_url_to_mobile, u, ctruth, convert=True)
+        if ok:
+            if ctruth is True:
+                ctx.count("convert-on-platform:facebook")
+            if not isinstance(v, str):
+                self.viol("C19:result-type:convert_facebook_url_to_mobile:not-str", {"platform": P, "fn": "convert_facebook_url_to_mobile", "url": u, "kw": {}}, {"got": repr(v)})
+        got = False
+        done = []
+        for rel in (False, True):
+            kw = {"allow_relative_urls": rel}
+            ok, v = self.call(P, "parse_facebook_url", fb.parse_facebook_url, u, truth, kw)
+            rec = self.expect_record(P, "parse_facebook_url", u, ok, v, kw)
+            ok2, h = self.call(P, "has_facebook_comments", fb.has_facebook_comments, u, truth, kw)
+            self.expect_bool(P, "has_facebook_comments", u, ok2, h, kw)
+            if rec is not None:
+                got = True
+                if rel and case and case["host"] == REL:
+                    ctx.count("config:allow_relative_urls=True:record")
+                if not any(rec == d for d in done):
+                    done.append(rec)
+                    self.roundtrip_url_property(P, "parse_facebook_url", fb.parse_facebook_url, rec, u, ({"allow_relative_urls": False}, {"allow_relative_urls": True}))
+        route_counts(ctx, P, case, got)
+        if truth is True:
+            self.maybe_normalize_url(P, u, truth)
+
+    # -- youtube -----------------------------------------------------------------------------------------------
+    def check_youtube(self, u, truth, case):
+        yt, ctx, P = self.m.yt, self.ctx, "youtube"
+        ok, v = self.call(P, "is_youtube_url", yt.is_youtube_url, u)
+        self.expect_bool(P, "is_youtube_url", u, ok, v)
+        recs = {}
+        for fcm in (True, False):
+            kw = {"fix_common_mistakes": fcm}
+            ok, v = self.call(P, "parse_youtube_url", yt.parse_youtube_url, u, truth, kw)
+            rec = self.expect_record(P, "parse_youtube_url", u, ok, v, kw)
+            recs[fcm] = rec
+            if rec is not None:
+                if not fcm:
+                    ctx.count("config:fix_common_mistakes=False:record")
+                if isinstance(rec, (yt.YoutubeVideo, yt.YoutubeShort)):
+                    self.validate(P, rec, "id", yt.is_youtube_video_id, "is_youtube_video_id", u, yt_route(u, case, rec), kw)
+        if recs[True] != recs[False]:
+            ctx.count("config:fix_common_mistakes:differs")
+        rec = recs[True]
+        route_counts(ctx, P, case, rec is not None)
+        if rec is not None and case:
+            if "next=" in (case.get("query") or ""):
+                ctx.count("continuation:youtube")
+            if "watch" in case.get("frag", "") and isinstance(rec, yt.YoutubeVideo):
+                ctx.count("fragment-routing:youtube")
+        ok, v = self.call(P, "extract_video_id_from_youtube_url", yt.extract_video_id_from_youtube_url, u)
+        self.expect_optstr(P, "extract_video_id_from_youtube_url", u, ok, v)
+        ok, n1 = self.call(P, "normalize_youtube_url", yt.normalize_youtube_url, u)
+        if ok:
+            wit = {"platform": P, "fn": "normalize_youtube_url", "url": u, "kw": {}}
+            tname = type(rec).__name__ if rec is not None else "None"
+            if not isinstance(n1, str):
+                self.viol("C19:result-type:normalize_youtube_url:not-str", wit, {"got": repr(n1)})
+            elif rec is None or safe_values(rec):
+                ok2, n2 = self.call(P, "normalize_youtube_url", yt.normalize_youtube_url, n1, True if rec is not None else truth)
+                ctx.count("idempotence-checked:youtube")
+                if ok2 and n2 != n1:
+                    self.viol("C19:normalize_youtube_url:not-idempotent:%s:%s" % (tname, shape_of(rec) if rec is not None else "-"), wit, {"once": n1, "twice": n2, "record": describe(rec)})
+                if rec is not None:
+                    ctx.count("roundtrip-checked:youtube")
+                    for fcm in (True, False):
+                        kw = {"fix_common_mistakes": fcm}
+                        ok3, back = self.call(P, "parse_youtube_url", yt.parse_youtube_url, n1, True, kw)
+                        if ok3 and back != rec:
+                            shape = shape_of(rec)
+                            if isinstance(rec, yt.YoutubeChannel) and rec.name:
+                                shape += "=" + ("blacklisted" if rec.name in yt.YOUTUBE_CHANNEL_NAME_BLACKLIST else "route-word" if rec.name in YT_ROUTES else "other")
+                            self.viol("C19:roundtrip:youtube:%s:%s:%s%s" % (tname, shape, diff_kind(rec, back), "" if fcm else ":fix_common_mistakes=False"),
+                                     wit, {"record": describe(rec), "canonical": n1, "reparsed": describe(back), "reparse_kw": kw})
+                            break
+            else:
+                ctx.count("roundtrip-unsafe-value-not-judged")
+        if truth is True:
+            self.maybe_normalize_url(P, u, truth)
+
+    # -- twitter -----------------------------------------------------------------------------------------------
+    def check_twitter(self, u, truth, case):
+        tw, ctx, P = self.m.tw, self.ctx, "twitter"
+        ok, v = self.call(P, "is_twitter_url", tw.is_twitter_url, u)
+        self.expect_bool(P, "is_twitter_url", u, ok, v)
+        ok, v = self.call(P, "parse_twitter_url", tw.parse_twitter_url, u, truth)
+        rec = self.expect_record(P, "parse_twitter_url", u, ok, v)
+        route_counts(ctx, P, case, rec is not None)
+        if rec is not None and case and not [s for s in case["segs"] if s] and case.get("frag", "").startswith("#!"):
+            ctx.count("fragment-routing:twitter")
+        ok, v = self.call(P, "extract_screen_name_from_twitter_url", tw.extract_screen_name_from_twitter_url, u)
+        self.expect_optstr(P, "extract_screen_name_from_twitter_url", u, ok, v)
+
+    # -- instagram ---------------------------------------------------------------------------------------------
+    def check_instagram(self, u, truth, case):
+        ig, ctx, P = self.m.ig, self.ctx, "instagram"
+        ok, v = self.call(P, "is_instagram_url", ig.is_instagram_url, u)
+        self.expect_bool(P, "is_instagram_url", u, ok, v)
+        ok, v = self.call(P, "parse_instagram_url", ig.parse_instagram_url, u, truth)
+        rec = self.expect_record(P, "parse_instagram_url", u, ok, v)
+        route_counts(ctx, P, case, rec is not None)
+        if rec is not None:
+            route = case["segs"][0] if case and case["segs"] and case["segs"][0] in IG_ROUTES else "user"
+            if isinstance(rec, (ig.InstagramPost, ig.InstagramReel)):
+                self.validate(P, rec, "id", ig.is_instagram_post_shortcode, "is_instagram_post_shortcode", u, route)
+            if isinstance(rec, (ig.InstagramPost, ig.InstagramUser)) and rec.name is not None:
+                self.validate(P, rec, "name", ig.is_instagram_username, "is_instagram_username", u, route)
+        ok, v = self.call(P, "extract_username_from_instagram_url", ig.extract_username_from_instagram_url, u)
+        self.expect_optstr(P, "extract_username_from_instagram_url", u, ok, v)
+
+    # -- telegram ----------------------------------------------------------------------------------------------
+    def check_telegram(self, u, truth, case):
+        tg, ctx, P = self.m.tg, self.ctx, "telegram"
+        ok, v = self.call(P, "is_telegram_url", tg.is_telegram_url, u)
+        self.expect_bool(P, "is_telegram_url", u, ok, v)
+        ok, v = self.call(P, "parse_telegram_url", tg.parse_telegram_url, u, truth)
+        rec = self.expect_record(P, "parse_telegram_url", u, ok, v)
+        route_counts(ctx, P, case, rec is not None)
+        if rec is not None and isinstance(rec, tg.TelegramMessage):
+            route = "s" if case and case["segs"] and case["segs"][0] == "s" else "plain"
+            self.validate(P, rec, "id", tg.is_telegram_message_id, "is_telegram_message_id", u, route)
+        ok, v = self.call(P, "extract_channel_name_from_telegram_url", tg.extract_channel_name_from_telegram_url, u)
+        self.expect_optstr(P, "extract_channel_name_from_telegram_url", u, ok, v)
+        ok, v = self.call(P, "convert_telegram_url_to_public", tg.convert_telegram_url_to_public, u, truth, convert=True)
+        if ok:
+            if truth is True:
+                ctx.count("convert-on-platform:telegram")
+            if not isinstance(v, str):
+                self.viol("C19:result-type:convert_telegram_url_to_public:not-str", {"platform": P, "fn": "convert_telegram_url_to_public", "url": u, "kw": {}}, {"got": repr(v)})
+
+    # -- google ------------------------------------------------------------------------------------------------
+    def check_google(self, u, truth, case):
+        gg, ctx, P = self.m.gg, self.ctx, "google"
+        for name in ("is_amp_url", "is_google_link"):
+            ok, v = self.call(P, name, getattr(gg, name), u)
+            self.expect_bool(P, name, u, ok, v)
+        ok, v = self.call(P, "extract_url_from_google_link", gg.extract_url_from_google_link, u)
+        self.expect_optstr(P, "extract_url_from_google_link", u, ok, v)
+        ok, v = self.call(P, "parse_google_drive_url", gg.parse_google_drive_url, u, truth)
+        rec = self.expect_record(P, "parse_google_drive_url", u, ok, v)
+        route_counts(ctx, P, case, rec is not None)
+        if rec is not None:
+            self.roundtrip_url_property(P, "parse_google_drive_url", gg.parse_google_drive_url, rec, u, ({},))
+        ok, v = self.call(P, "extract_id_from_google_drive_url", gg.extract_id_from_google_drive_url, u)
+        self.expect_optstr(P, "extract_id_from_google_drive_url", u, ok, v)
+
+    # -- every function of every platform on one string -----------------------------------------------------------
+    def check_all(self, u, own=None, case=None):
+        for p in PLATFORMS:
+            if own is None:
+                self.check(p, u, None, None)
+            elif p == own:
+                self.check(p, u, True, case)
+            else:
+                self.check(p, u, False, None)
+        m = self.m
+        for p, name, fn in (("facebook", "is_facebook_url", m.fb.is_facebook_url), ("twitter", "is_twitter_url", m.tw.is_twitter_url),
+                            ("instagram", "is_instagram_url", m.ig.is_instagram_url), ("telegram", "is_telegram_url", m.tg.is_telegram_url),
+                            ("youtube", "is_youtube_url", m.yt.is_youtube_url)):
+            self.split_result_branch(p, name, fn, u)
+
+    def validators_total(self, s):
+        m, ctx = self.m, self.ctx
+        for p, name, fn in (("facebook", "is_facebook_id", m.fb.is_facebook_id), ("facebook", "is_facebook_full_id", m.fb.is_facebook_full_id),
+                            ("youtube", "is_youtube_video_id", m.yt.is_youtube_video_id), ("youtube", "is_youtube_channel_id", m.yt.is_youtube_channel_id),
+                            ("instagram", "is_instagram_post_shortcode", m.ig.is_instagram_post_shortcode), ("instagram", "is_instagram_username", m.ig.is_instagram_username),
+                            ("telegram", "is_telegram_message_id", m.tg.is_telegram_message_id)):
+            ok, v = self.call(p, name, fn, s)
+            self.expect_bool(p, name, s, ok, v)
+
+
+# ---------------------------------------------------------------------------------------------------------------
+# workloads
+# ---------------------------------------------------------------------------------------------------------------
+def C(plat, host, segs, trail=False, query="", frag=""):
+    return {"platform": plat, "host": host, "segs": list(segs), "trail": trail, "query": query, "frag": frag}
+
+
+FBH, YTH, TWH, IGH, TGH, GGH = "https://www.facebook.com", "https://www.youtube.com", "https://twitter.com", "https://www.instagram.com", "https://t.me", "https://docs.google.com"
+
+# one minimal case per hostile class / anchored mechanism / expected finding (shard 0 of every run)
+DIRECTED = [
+    # truncated routes named by the statement
+    C("youtube", "youtu.be", [], True), C("youtube", "https://youtu.be", []), C("twitter", "twitter.com", ["i"]), C("telegram", "t.me", ["s"]), C("facebook", "facebook.com", ["groups"], True),
+    # facebook: every positional access, truncated and complete
+    C("facebook", FBH, ["videos"], True), C("facebook", FBH, ["123456789", "videos"], True), C("facebook", FBH, ["123456789", "videos", "311658803718223"]),
+    C("facebook", FBH, ["photos"], True), C("facebook", FBH, ["some.handle", "photos"], True), C("facebook", FBH, ["some.handle", "photos", "a.1234"], True),
+    C("facebook", FBH, ["some.handle", "photos", "a.309641465765319", "4406607732735318"]), C("facebook", FBH, ["260769680665568", "photos", "a.305266056215930", "524959150913285"]),
+    C("facebook", FBH, ["posts"], True), C("facebook", FBH, ["some.handle", "posts"], True), C("facebook", FBH, ["123456789", "posts"], True), C("facebook", FBH, ["groups", "posts"], True),
+    C("facebook", FBH, ["groups", "123456789", "posts"], True), C("facebook", FBH, ["groups", "some.handle", "posts"], True), C("facebook", FBH, ["groups", "1234567", "posts", "99"]),
+    C("facebook", FBH, ["groups", "12345678x", "posts", "99"]), C("facebook", FBH, ["groups", "123456789", "posts", "99"]), C("facebook", FBH, ["groups", "some.handle", "posts", "99"]),
+    C("facebook", FBH, ["groups", "123456789", "permalink"], True), C("facebook", FBH, ["groups", "some.handle", "permalink"], True), C("facebook", FBH, ["permalink", "groups"], True),
+    C("facebook", FBH, ["groups", "123456789", "permalink", "99"]), C("facebook", FBH, ["groups", "some.handle", "permalink", "99"]), C("facebook", FBH, ["groups", "123456789"]),
+    C("facebook", FBH, ["groups", "some.handle"]), C("facebook", FBH, ["groups"]), C("facebook", FBH, ["people"]), C("facebook", FBH, ["people", "Clare-Roche"]),
+    C("facebook", FBH, ["people", "Clare-Roche", "100020635422861"]), C("facebook", FBH, ["profile.php"]), C("facebook", FBH, ["profile.php"], False, "id=100012241140363"),
+    C("facebook", FBH, ["profile.php"], False, "x=1"), C("facebook", FBH, ["permalink.php"], False, "id=5"), C("facebook", FBH, ["story.php"], False, "id=5"),
+    C("facebook", FBH, ["permalink.php"], False, "story_fbid=4"), C("facebook", FBH, ["permalink.php"], False, "story_fbid=4&id=5"), C("facebook", "https://m.facebook.com", ["story.php"], False, "story_fbid=4&amp;id=5"),
+    C("facebook", FBH, ["watch"], True, "v=311658803718223"), C("facebook", FBH, ["watch"], True), C("facebook", FBH, ["photo.php"], False, "fbid=1"), C("facebook", FBH, ["photo"], True, "fbid=1&set=g.2"),
+    C("facebook", FBH, ["photo.php"], False, "fbid=1&set=a.3"), C("facebook", FBH, ["photo.php"], False, "set=a.3"), C("facebook", FBH, ["photo.php"]), C("facebook", FBH, ["some.handle"], True),
+    C("facebook", FBH, [""], True), C("facebook", FBH, [" "]), C("facebook", FBH, ["l.php"], False, "u=http%3A%2F%2Fa.com%2F&h=AT0"), C("facebook", "https://l.facebook.com", ["l.php"], False, "u=http%3A%2F%2Fa.com%2F"),
+    C("facebook", REL, ["some.handle"], False, "rc=p"), C("facebook", REL, ["profile.php"], False, "id=100012241140363"), C("facebook", REL, ["groups"], True), C("facebook", REL, ["some.handle", "posts"]),
+    C("facebook", REL, ["some.handle", "posts", "428202057564823"]), C("facebook", "https://fb.me", ["47574"]), C("facebook", "https://www.facebook.co.uk", ["some.handle"]),
+    # youtube
+    C("youtube", "https://youtu.be", [VID]), C("youtube", "https://youtu.be", [VID + "%5D"]), C("youtube", "https://youtu.be", ["short"]), C("youtube", "https://youtu.be", ["", VID]),
+    C("youtube", YTH, ["watch"], False, "v=" + VID), C("youtube", YTH, ["watch"], False, "v=" + VID + "&list=PL1"), C("youtube", YTH, ["watch"], False, "list=PL1&v=" + VID), C("youtube", YTH, ["watch"]),
+    C("youtube", YTH, ["watch"], True, "v=" + VID), C("youtube", YTH, ["watch"], False, "v=" + VID + "xyz"), C("youtube", YTH, ["embed"], True), C("youtube", YTH, ["embed", VID], False, "autoplay=1"),
+    C("youtube", YTH, ["v"], True), C("youtube", YTH, ["v", VID]), C("youtube", YTH, ["video"], True), C("youtube", YTH, ["video", VID]), C("youtube", YTH, ["shorts"], True), C("youtube", YTH, ["shorts", VID]),
+    C("youtube", YTH, ["shorts", VID + "xyz"]), C("youtube", YTH, ["shorts", VID, "nonsense"], False, "whatever"), C("youtube", YTH, ["user"], True), C("youtube", YTH, ["user", "ojimfrance"]),
+    C("youtube", YTH, ["c"], True), C("youtube", YTH, ["c"]), C("youtube", YTH, ["c", "NadineMorano"]), C("youtube", YTH, ["c", "@handle"]), C("youtube", YTH, ["c", "about"]), C("youtube", YTH, ["c", "watch"]),
+    C("youtube", YTH, ["c", "@"]), C("youtube", YTH, ["about"]), C("youtube", YTH, ["@handle"]), C("youtube", YTH, ["@about"]), C("youtube", YTH, ["channel"], True), C("youtube", YTH, ["channel", "UC" + "a" * 22]),
+    C("youtube", YTH, ["channel", "UC" + "a" * 22, "videos"]), C("youtube", YTH, ["feed", "history"]), C("youtube", YTH, ["signin"], False, "app=desktop&next=%2Fwatch%3Fv%3D" + VID + "&pli=1"),
+    C("youtube", YTH, ["signin"], False, "next=%2Fwatch%3Fv%3Dabc"), C("youtube", "https://accounts.youtube.com", ["accounts", "SetSID"], False, "list=PL1&continue=https%3A%2F%2Fwww.youtube.com%2Fsignin%3Fnext%3D%252Fwatch%253Fv%253D" + VID + "%26pli%3D1"),
+    C("youtube", "https://accounts.youtube.com", ["accounts", "SetSID"], False, "continue=https%3A%2F%2Fwww.youtube.com%2Fsignin%3Fnext%3D%252Fwatch%253Fv%253Dabc"),
+    C("youtube", "https://m.youtube.com", [], True, "hl=fr&gl=FR", "#%2Fwatch%3Fv%3D" + VID), C("youtube", YTH, [], True, "app=desktop", "#/watch?v=" + VID), C("youtube", YTH, [], True, "", "#/watch?v=abc"),
+    C("youtube", YTH, ["attribution_link"], False, "a=bWd&u=%2Fwatch%3Fv%3D" + VID + "%26feature%3Dshare"), C("youtube", YTH, ["redirect"], False, "q=https%3A%2F%2Fyoutu.be%2F"),
+    C("youtube", YTH, ["redirect"], False, "q=youtu.be%2F"), C("youtube", "https://youtube.googleapis.com", ["v", VID]), C("youtube", "yt.be", [VID]), C("youtube", "https://www.youtubekids.com", ["watch"], False, "v=" + VID),
+    # twitter
+    C("twitter", TWH, ["i"], True), C("twitter", TWH, ["i", "lists"]), C("twitter", TWH, ["i", "lists"], True), C("twitter", TWH, ["i", "lists", "1551265122798157826"]), C("twitter", TWH, ["i", "timeline"]),
+    C("twitter", TWH, []), C("twitter", TWH, ["home"]), C("twitter", TWH, ["User_1"]), C("twitter", TWH, ["@user"], True, "s=19"), C("twitter", TWH, ["User_1", "status"]), C("twitter", TWH, ["User_1", "status", "1455202987844857861"]),
+    C("twitter", TWH, ["User_1", "lists"]), C("twitter", "twitter.com", [], True, "", "#!/User_1"), C("twitter", "twitter.com", [], False, "", "#!User_1"), C("twitter", "twitter.com", [], True, "", "#!/i"),
+    C("twitter", "twitter.com", [], True, "", "#!/i/lists/12"), C("twitter", "twitter.com", [], True, "", "#!"), C("twitter", "twitter.com", [], True, "", "#!/"), C("twitter", "twitter.com", [], True, "", "#!/@user/statuses/12"),
+    C("twitter", "twitter.com", [], True, "", "#!#!/i"), C("twitter", "https://x.com", ["i"]), C("twitter", "twitter.com", [""], True), C("twitter", "twitter.com", [], True, "", "#whatever"),
+    # instagram
+    C("instagram", IGH, ["p"]), C("instagram", IGH, ["p"], True), C("instagram", IGH, ["p", "BxKRx5-Hn5i"], True), C("instagram", IGH, ["p", "bé"]), C("instagram", IGH, ["reel"], True), C("instagram", IGH, ["reel", "Co-r5ZyTuZ--"], True),
+    C("instagram", IGH, ["reels"], True), C("instagram", IGH, ["reels", "Co2ZFRrAgHy"], True), C("instagram", IGH, ["reels", "videos"]), C("instagram", IGH, ["reels", "videos", "Co2ZFRrAgHy"], True),
+    C("instagram", IGH, ["reels", "videos", "videos"]), C("instagram", IGH, ["martin_d.1"]), C("instagram", IGH, ["martin_d.1", "p"]), C("instagram", IGH, ["martin_d.1", "p", "BxKRx5C_n5i"], True),
+    C("instagram", IGH, ["martin_d.1", "p", "bé"]), C("instagram", IGH, ["direct"], True), C("instagram", IGH, ["bé"]), C("instagram", IGH, [""], True), C("instagram", IGH, ["explore", "tags", "x"]),
+    # telegram
+    C("telegram", TGH, ["s"], True), C("telegram", TGH, ["s", "joinchat"]), C("telegram", TGH, ["s", "joinchat", "AAAAAE9B8u_wO9d4NiJp3w"]), C("telegram", TGH, ["s", "katroulo"]), C("telegram", TGH, ["s", "katroulo", "76"]),
+    C("telegram", TGH, ["s", "katroulo", "7a"]), C("telegram", TGH, ["joinchat"]), C("telegram", TGH, ["joinchat"], True), C("telegram", TGH, ["joinchat", "AAAAAE9B8u_wO9d4NiJp3w"]),
+    C("telegram", TGH, ["joinchat", "s", "AAAAAE9B8u_wO9d4NiJp3w"]), C("telegram", TGH, ["katroulo"]), C("telegram", TGH, ["katroulo", "76"]), C("telegram", TGH, ["katroulo", "7a"]), C("telegram", TGH, ["katroulo", "76", "x"]),
+    C("telegram", "http://www.telegram.org", []), C("telegram", "telegram.me", []), C("telegram", "https://telegram.me", ["whatever"], False, "", "#ok"), C("telegram", TGH, [""], True),
+    # google
+    C("google", GGH, ["spreadsheets", "d", "1Q9sJtAb1BZh", "edit"], False, "", "#gid=0"), C("google", GGH, ["document", "d", "1Q9sJtAb1BZh"]), C("google", GGH, ["presentation", "d", "1Q9sJtAb1BZh"], True),
+    C("google", GGH, ["spreadsheets", "d", "e", "2PACX-1vTnz", "pub"], False, "output=csv"), C("google", GGH, ["document", "d", "e", "2PACX-1vTnz", "pub"]), C("google", GGH, ["document", "d", "e", "pub"]),
+    C("google", GGH, ["document", "d", "e"]), C("google", GGH, ["document", "d", "pub"]), C("google", GGH, ["document", "d", "1Q9sJtAb1BZh", "pub"]), C("google", GGH, ["document", "d"]), C("google", GGH, ["document"]),
+    C("google", GGH, ["spreadsheets"], True), C("google", GGH, ["d"]), C("google", GGH, ["e"]), C("google", GGH, ["pub"]), C("google", GGH, ["presentation", "d"], True), C("google", GGH, ["nothing", "d", "e", "2PACX-1vTnz", "pub"]),
+    C("google", GGH, ["document", "x", "1Q9sJtAb1BZh"]), C("google", "https://www.google.com", ["url"], False, "sa=t&url=https%3A%2F%2Fa.com%2Fx&usg=A"), C("google", "https://www.google.com", ["url"]),
+    C("google", "http://amp.lefigaro.fr", ["x"]), C("google", "http://a-com.cdn.ampproject.org", ["c", "s", "a.com", "x.amp"]), C("google", "http://a.com", ["x", "amp"], True), C("google", "http://a.com", ["x.amp.html"]),
+    C("google", "http://a.com", ["x"], False, "amp_js=1"),
+]
+
+# arbitrary non-platform strings: every function of every platform
+ARBITRARY = ["", " ", "\t", "\n", "http://", "https://", "//", "/", "#", "?", "http://[", "http://]", "http://[::1", "http://[::1]/x", "http://a.com:x/", "http://a.com:99999/y", "/x", "x", "a b", "é", "日本", "\x00", "\x7f",
+             "http://a.com", "https://www.lemonde.fr/path?x=1#f", "lemonde.fr", "www.", ".", "..", "http://.", "http://?", "http://#", "http:///x", "ftp://facebook.com/x/posts", "mailto:a@t.me", "javascript:void(0)",
+             "facebook.com:abc/x/posts", "https://user:pw@twitter.com:8080/i", "http://t.me:x/s", "youtu.be:0/", "notfacebook.com/groups/", "facebook.com.evil.org/videos/", "evil.org/facebook.com/posts/",
+             "evil.org/?u=twitter.com/i", "http://evil.com/#next=%2Fwatch%3Fv%3Dabc", "http://evil.com/?next=%2Fwatch%3Fv%3D" + VID, "http://evil.com/?a=next%3D%252Fwatch%253Fv%253Dabc", "xfacebook.com/videos/",
+             "mytwitter.com/i", "xt.me/s", "t.me.evil.org/s", "docs.google.com.evil.org/document/d", "http://evil.org/docs.google.com/document/d/e/pub", "http://x@docs.google.com@evil.org/document/d/e/x/pub",
+             "FACEBOOK.COM/GROUPS/", "TWITTER.COM/I", "T.ME/S", "YOUTU.BE/", "https://facebook.com\\groups\\", "facebook.com/groups/\n", " facebook.com/posts/ ", "https://twitter.com/i\t", "fb.me", "fb.me/", "x.com", "t.me",
+             "youtu.be", "twitter.com", "instagram.com", "docs.google.com", "facebook.com", "youtube.com", "%", "%zz", "http://%41.com/", "http://a.com/%", "a" * 300, "http://" + "a." * 80 + "com/"]
+
+ID_ALPHA = "abcdefghijklmnopqrstuvwxyzABCDEFGHIJKLMNOPQRSTUVWXYZ0123456789_-"
+
+
+def random_segment(rng, spec):
+    r = rng.random()
+    if r < 0.55:
+        return rng.choice(spec["voc"])
+    if r < 0.65:
+        return "".join(rng.choice("0123456789") for _ in range(rng.choice([1, 5, 7, 8, 9, 15, 20])))
+    if r < 0.80:
+        return "".join(rng.choice(ID_ALPHA) for _ in range(rng.choice([1, 2, 10, 11, 12, 22, 24, 40])))
+    if r < 0.88:
+        return rng.choice(["@", "@@x", "a.b", "a.", ".php", "x.php", "UC" + "b" * 22, "a." + "1" * 9, "g.1", "%40x", "a%2Fb", "a b", "é", "a&b", "a=b", "A", "~x", "-", "_", "i", "s", "p", "c", "v", "d", "e"])
+    return rng.choice(spec["voc"]).upper()
+
+
+def random_case(rng, plat):
+    spec = SPEC[plat]
+    host = rng.choice(spec["hosts"])
+    if host != REL:
+        r = rng.random()
+        scheme, _, h = host.rpartition("://")
+        if r < 0.08:
+            h = h.upper()
+        elif r < 0.14:
+            h = "user:pw@" + h
+        elif r < 0.20:
+            h = h + ":8080"
+        elif r < 0.24:
+            h = h + "."
+        host = (scheme + "://" if scheme else rng.choice(["", "", "//", "http://", "HTTPS://"])) + h
+    segs = [random_segment(rng, spec) for _ in range(rng.choice([0, 1, 1, 2, 2, 3, 3, 4, 5]))]
+    items = []
+    for _ in range(rng.choice([0, 0, 1, 1, 2, 3])):
+        it = rng.choice(spec["qfull"][1:12])
+        if rng.random() < 0.3 and "=" in it:
+            it = it.split("=")[0] + "=" + random_segment(rng, spec)
+        items.append(it)
+    sep = "&amp;" if rng.random() < 0.1 else "&"
+    frag = rng.choice(spec["frags"]) if rng.random() < 0.4 else ""
+    if frag and rng.random() < 0.3:
+        frag = "#!/" + "/".join(random_segment(rng, spec) for _ in range(rng.randint(0, 3)))
+    return C(plat, host, segs, rng.random() < 0.3, sep.join(items), frag)
+
+
+def install(ctx):
+    pr = Probes()
+    for dotted in ("ural.facebook:parse_facebook_url", "ural.youtube:parse_youtube_url", "ural.twitter:parse_twitter_url", "ural.instagram:parse_instagram_url",
+                   "ural.telegram:parse_telegram_url", "ural.google:parse_google_drive_url", "ural.youtube:normalize_youtube_url"):
+        pr.watch(dotted, want_args=False)
+    pr.start()
+    return pr
+
+
+def nontrivial(ctx, plat, u, case):
+    if [s for s in case["segs"] if s] or case.get("query") or case.get("frag"):
+        ctx.nontrivial((plat, u))
+
+
+def run(ctx):
+    mods = Mods()
+    pr = install(ctx)
+    ck = PlatformChecks(ctx, mods)
+    rng = ctx.rng
+    try:
+        # (1) directed corpus + arbitrary strings + validators: shard 0
+        if ctx.shard == 0:
+            for case in DIRECTED:
+                u = render(case)
+                ck.check_all(u, case["platform"], case)
+                nontrivial(ctx, case["platform"], u, case)
+                ctx.cls("directed:" + case["platform"])
+            ctx.sample("directed", [render(c) for c in DIRECTED[:8]])
+            for s in ARBITRARY:
+                ck.check_all(s)
+                ck.validators_total(s)
+                ctx.count("arbitrary-string")
+                ctx.nontrivial(("arbitrary", s))
+                ctx.cls("arbitrary")
+            ctx.sample("arbitrary", ARBITRARY[8:16])
+            for plat in PLATFORMS:
+                for seg in SPEC[plat]["voc"]:
+                    ck.validators_total(seg)
+        # (2) exhaustive small scope
+        idx = 0
+        for plat in PLATFORMS:
+            spec = SPEC[plat]
+            for lengths, voc, hosts, trails, queries, frags in levels(spec, ctx.tier):
+                n_here = 0
+                for L in lengths:
+                    for segs in itertools.product(voc, repeat=L):
+                        for host in hosts:
+                            for trail in trails:
+                                for q in queries:
+                                    for fr in frags:
+                                        idx += 1
+                                        if not ctx.mine(idx):
+                                            continue
+                                        case = C(plat, host, segs, trail, q, fr)
+                                        u = render(case)
+                                        if n_here % 16 == 0:
+                                            ck.check_all(u, plat, case)
+                                        else:
+                                            ck.check(plat, u, True, case)
+                                        nontrivial(ctx, plat, u, case)
+                                        n_here += 1
+                                        if n_here % 997 == 5:
+                                            ctx.sample("%s/len%s" % (plat, lengths[-1]), u)
+                ctx.cls("exhaustive:%s:len<=%d" % (plat, lengths[-1]), n_here)
+                ctx.exhaustive_space("%s: paths of length %s over %d segments x %d hosts x %d trailing x %d queries x %d fragments" % (
+                    plat, "/".join(map(str, lengths)), len(voc), len(hosts), len(trails), len(queries), len(frags)), n_here)
+        # (3) seeded random records
+        n = 0
+        lim = 6000 if ctx.tier == "quick" else 10 ** 8
+        while ctx.time_left() and n < lim:
+            n += 1
+            plat = PLATFORMS[n % 6]
+            case = random_case(rng, plat)
+            u = render(case)
+            truth = True
+            if n % 10 == 0:
+                ck.check_all(u, plat, case)
+            else:
+                ck.check(plat, u, truth, case)
+            nontrivial(ctx, plat, u, case)
+            ctx.cls("random:" + plat)
+            if n % 400 == 7:
+                ctx.sample("random:" + plat, u)
+            if n % 50 == 0:
+                s = "".join(rng.choice(["/", "?", "#", "=", "&", ":", "@", ".", "%", "!", " ", "[", "]"] + rng.choice(ARBITRARY[20:60]).split("/") + SPEC[plat]["voc"][:8] + ["t.me", "x.com", "fb.me", "youtu.be", "facebook.com", "docs.google.com", "instagram.com"])
+                            for _ in range(rng.randint(1, 7)))
+                ck.check_all(s)
+                ctx.count("arbitrary-string")
+                ctx.cls("random:soup")
+    finally:
+        pr.stop()
+    return {"probes": pr.report()}
+
+
+def replay(ctx, witness):
+    mods = Mods()
+    pr = install(ctx)
+    ck = PlatformChecks(ctx, mods)
+    try:
+        u = witness["url"]
+        plat = witness.get("platform")
+        truth = witness.get("truth")
+        case = uncase(plat, u) if (truth is True and plat in PLATFORMS) else None
+        if witness.get("validator_arg"):
+            ck.validators_total(u)
+        elif plat in PLATFORMS:
+            if witness.get("split_result") or witness.get("fn") == "normalize_url":
+                ck.n_norm = 7
+                ck.check_all(u, plat if truth is True else None, case)
+                if truth is True:
+                    ck.n_norm = 7
+                    ck.check(plat, u, truth, case)
+            else:
+                ck.check(plat, u, truth, case)
+        else:
+            ck.check_all(u)
+    finally:
+        pr.stop()
